@@ -6,6 +6,7 @@ package cli
 
 import (
 	"flag"
+	"strconv"
 )
 
 // ---------------------------------------------------------------------------------
@@ -31,6 +32,20 @@ var vOptTable = [nOpts]vOptDecl{
 	{'b', "bb", true},
 	{'o', "oo", false},
 	{'e', "ee", false},
+}
+
+// vNamesOf: the name list an option of the table is declared with.
+func vNamesOf(o int) string { return vShortOf(o) + " " + vOptTable[o].long }
+
+// vUseNames swaps the table's names for unusual but legal ones (same kinds): digits as
+// short names, upper-case letters, underscores and dashes inside long names.
+func vUseNames(k int) {
+	switch k {
+	case 0:
+		vOptTable = [nOpts]vOptDecl{{'a', "aa", true}, {'b', "bb", true}, {'o', "oo", false}, {'e', "ee", false}}
+	case 1:
+		vOptTable = [nOpts]vOptDecl{{'4', "ipv4", true}, {'k', "keepGoing", true}, {'o', "outDir", false}, {'6', "e_6-x", false}}
+	}
 }
 
 func vByShort(c byte) int {
@@ -105,6 +120,28 @@ type vAppCfg struct {
 	withSub   bool // the application has one sub-command (k)
 }
 
+// vCustomFlags: the two flags of the table are user-defined value types (flag.Value with
+// IsBoolFlag() == true) instead of BoolOpt: everything said about flags holds for them.
+var vCustomFlags bool
+
+type vUserFlag struct{ on bool }
+
+func (f *vUserFlag) String() string {
+	if f.on {
+		return "true"
+	}
+	return "false"
+}
+func (f *vUserFlag) IsBoolFlag() bool { return true }
+func (f *vUserFlag) Set(s string) error {
+	v, err := strconv.ParseBool(s)
+	if err != nil {
+		return err
+	}
+	f.on = v
+	return nil
+}
+
 // vTableApp is a declared (not yet run) application over the declaration table.
 type vTableApp struct {
 	run func(full []string) vOutcome
@@ -167,16 +204,28 @@ func vBuildTable(cfg vAppCfg) *vTableApp {
 		declArgs()
 	}
 	if mask&1 != 0 {
-		a = app.Bool(BoolOpt{Name: "a aa", Value: defA, EnvVar: envOf("VA"), SetByUser: &user[oA]})
+		if vCustomFlags {
+			fa := &vUserFlag{on: defA}
+			app.Var(VarOpt{Name: vNamesOf(oA), Value: fa, EnvVar: envOf("VA"), SetByUser: &user[oA]})
+			a = &fa.on
+		} else {
+			a = app.Bool(BoolOpt{Name: vNamesOf(oA), Value: defA, EnvVar: envOf("VA"), SetByUser: &user[oA]})
+		}
 	}
 	if mask&2 != 0 {
-		b = app.Bool(BoolOpt{Name: "b bb", Value: defB, EnvVar: envOf("VB"), SetByUser: &user[oB]})
+		if vCustomFlags {
+			fb := &vUserFlag{on: defB}
+			app.Var(VarOpt{Name: vNamesOf(oB), Value: fb, EnvVar: envOf("VB"), SetByUser: &user[oB]})
+			b = &fb.on
+		} else {
+			b = app.Bool(BoolOpt{Name: vNamesOf(oB), Value: defB, EnvVar: envOf("VB"), SetByUser: &user[oB]})
+		}
 	}
 	if mask&4 != 0 {
-		o = app.Strings(StringsOpt{Name: "o oo", Value: defO, EnvVar: envOf("VO"), SetByUser: &user[oO]})
+		o = app.Strings(StringsOpt{Name: vNamesOf(oO), Value: defO, EnvVar: envOf("VO"), SetByUser: &user[oO]})
 	}
 	if mask&8 != 0 {
-		e = app.Strings(StringsOpt{Name: "e ee", Value: defE, EnvVar: envOf("VE"), SetByUser: &user[oE]})
+		e = app.Strings(StringsOpt{Name: vNamesOf(oE), Value: defE, EnvVar: envOf("VE"), SetByUser: &user[oE]})
 	}
 	if !cfg.argsFirst {
 		declArgs()
